@@ -130,7 +130,7 @@ def sweep_cases():
 GRID_INT = ["0", "1", "-1", "2", "-2", "(-9223372036854775807 - 1)", "9223372036854775807", "-9223372036854775807",
             "2147483648", "-2147483648", "4294967296", "-4294967296", "9007199254740992", "-9007199254740992",
             "9007199254740993", "9223372036854775808", "-9223372036854775809", "18446744073709551616", "3", "-7"]
-GRID_INT_R = ["0", "1", "-1", "2", "3", "(-9223372036854775807 - 1)", "9223372036854775807", "2147483648", "-4294967296",
+GRID_INT_R = ["0", "1", "-1", "2", "3", "4", "8", "-2", "(-9223372036854775807 - 1)", "9223372036854775807", "2147483648", "-4294967296",
               "9007199254740993", "9223372036854775808", "-9223372036854775809"]
 GRID_FLOAT = ["0.0", "-0.0", "1.0", "-1.0", "5e-324", "1.7976931348623157e308", "-1.7976931348623157e308", "Float::INF",
               "-Float::INF", "Float::NAN", "9007199254740992.0", "9007199254740994.0", "9007199254740991.0", "0.5", "2.5"]
@@ -315,7 +315,8 @@ def minimise(line, still, desc_fn):
 def run(ctx):
     ctx.rule = ("(operator, left literal with static type, right literal with static type) over Int/Float/BigFloat/sized "
                 "numerics/String/Char with boundary values; each case is compiled in five variants (literal expression, "
-                "typed variables, union-typed variables, statically bound call, dynamically dispatched call); plus a "
+                "typed variables, union-typed variables, statically bound call, dynamically dispatched call; the grid adds "
+                "typed variable x literal and literal x typed variable); plus a "
                 "deterministic boundary grid: every binary/unary operator x boundary sets of Int (0, +-1, +-2, Min/MaxInt64, "
                 "+-2^31, +-2^32, +-2^53, 2^63, -2^63-1, 2^64) and Float (+-0, +-1, tiny/huge, +-inf, NaN, 2^53+-) in all four "
                 "type combinations, batched per program, variants compared element-wise; "
